@@ -7,11 +7,17 @@ Trace == ndJsonDeserialize("trace.ndjson")
 NoDiv == [at |-> 0]
 tevars == <<evars, l, div, taint, devAll>>
 Has(ev, f) == f \in DOMAIN ev
+(* the read-before-overwrite half of the pool's order is part of C13's statement only: that check substitutes
+   JudgePoolAntiDep <- Yes; for every other property a wrong order counts once a mined block carries it *)
+Yes == TRUE
+JudgePoolAntiDep == FALSE
 (* poolseq (the order in which the pool yields its transactions) is not part of the compared record: it is judged by
-   SeqOK - every transaction comes after the pending transactions whose outputs or key versions it consumes *)
+   SeqOK - every transaction comes after the pending transactions whose outputs or key versions it consumes, and
+   (unless the known deviation is switched on) a pure reader of a key version before the pending writer superseding it *)
 Norm(o) == [f \in DOMAIN o \ {"poolseq"} |-> IF f \in {"utxo", "pool", "poold"} THEN Range(o[f]) ELSE o[f]]
 SeqOK(o) == "poolseq" \notin DOMAIN o \/ \A i, j \in DOMAIN o.poolseq :
                (i < j /\ o.poolseq[i] \in AllTxs /\ o.poolseq[j] \in AllTxs) => ~DependsOn(o.poolseq[i], o.poolseq[j])
+                  /\ (~JudgePoolAntiDep \/ KF_PoolOrderAntiDep \/ ~AntiDep(o.poolseq[j], o.poolseq[i]))
 TInit == EInit /\ l = 1 /\ div = NoDiv /\ taint = FALSE /\ devAll = {} /\ TLCSet(1, 1) /\ TLCSet(2, NoDiv) /\ TLCSet(3, {})
 
 (* R3 at engine level: the walks inside a push / a mining round / a tick re-admit rolled-back transactions in map order
